@@ -54,6 +54,7 @@ def _prepare():
 def run(c):
     _prepare()
     c.proofs("theories/Properties/C12.v", clean=(c.tier == "thorough"))
+    c.translate(['TieProto'])  # T1: formulas / constants regenerated from the source, tie theorems re-checked
     n = 150 if c.tier == "quick" else 2400
     nrd = 200 if c.tier == "quick" else 3000
     out = None
